@@ -2285,6 +2285,7 @@ class Parameters:
         for method, queued, on_init, constant, dynamic in type(obj).param._depends['watch']:
             # On initialization set up constant watchers; otherwise
             # clean up previous dynamic watchers for the updated attribute
+            all_dynamic = dynamic
             dynamic = [d for d in dynamic if attribute is None or d.spec.split(".")[0] == attribute]
             if init:
                 constant_grouped = defaultdict(list)
@@ -2298,6 +2299,8 @@ class Parameters:
             elif dynamic:
                 for w in obj._param__private.dynamic_watchers.pop(method, []):
                     (w.cls if w.inst is None else w.inst).param.unwatch(w)
+                # every dynamic watcher of the method is gone: rebuild them all
+                dynamic = all_dynamic
             else:
                 continue
 
